@@ -38,6 +38,9 @@ pub enum Ev {
     /// nodes in different groups cannot exchange messages
     Partition { at_ms: u64, groups: Vec<Vec<u64>> },
     Heal { at_ms: u64 },
+    /// the link between two nodes is down for a while, both directions (a partial, non-transitive partition:
+    /// both can still talk to everybody else)
+    CutLink { at_ms: u64, a: u64, b: u64, for_ms: u64 },
     /// the node's clock jumps forward (a timer fires early)
     ClockJump { at_ms: u64, node: u64, ms: u64 },
     /// the node neither ticks nor answers for a while (its peers' requests fail)
@@ -158,6 +161,8 @@ pub struct Sim<'a> {
     last_commit: Vec<u64>,
     last_core_commit: Vec<u64>,
     hole_seen: Vec<bool>,
+    cut_links: Vec<(u64, u64, u64)>,
+    last_term: Vec<u64>,
     /// (index, entry term, data, term of the leader that committed it)
     leader_committed: Vec<(u64, u64, u64, u64)>,
     appended_any: bool,
@@ -221,6 +226,8 @@ impl<'a> Sim<'a> {
             last_commit: vec![0; n as usize],
             last_core_commit: vec![0; n as usize],
             hole_seen: vec![false; n as usize],
+            cut_links: vec![],
+            last_term: vec![0; n as usize],
             leader_committed: vec![],
             appended_any: false,
             tail_data: vec![],
@@ -243,7 +250,7 @@ impl<'a> Sim<'a> {
         }
         for (i, ev) in plan.events.iter().enumerate() {
             let at = match ev {
-                Ev::Partition { at_ms, .. } | Ev::Heal { at_ms } | Ev::ClockJump { at_ms, .. } | Ev::Stall { at_ms, .. } | Ev::Append { at_ms, .. } => Some(*at_ms),
+                Ev::Partition { at_ms, .. } | Ev::Heal { at_ms } | Ev::CutLink { at_ms, .. } | Ev::ClockJump { at_ms, .. } | Ev::Stall { at_ms, .. } | Ev::Append { at_ms, .. } => Some(*at_ms),
                 Ev::Msg { .. } => None,
             };
             if let Some(at) = at {
@@ -271,6 +278,9 @@ impl<'a> Sim<'a> {
     }
 
     fn blocked(&self, a: u64, b: u64) -> bool {
+        if self.cut_links.iter().any(|(x, y, until)| *until > self.now_ns && ((*x == a && *y == b) || (*x == b && *y == a))) {
+            return true;
+        }
         match &self.group {
             Some(g) => g[a as usize] != g[b as usize],
             None => false,
@@ -296,8 +306,13 @@ impl<'a> Sim<'a> {
                     // election traffic (PreVote / Vote requests and their answers) is biased towards being held
                     // back for a term timeout or more, or lost: stale votes and half-delivered candidacies
                     let election = *vote_hold > 0 && matches!(msg.req.verif_kind(), "Vote" | "PreVote");
+                    // ... and so is, more rarely, the answer to any request (a stale TermMismatch / LogMismatch / Ok
+                    // that arrives several elections later)
+                    let stale_answer = *vote_hold > 0 && is_resp && rng.below(1000) < *vote_hold / 8;
                     let x = rng.below(1000);
-                    let act = if election && rng.below(1000) < *vote_hold {
+                    let act = if stale_answer {
+                        Some(MsgAct::Delay { ms: rng.range(self.plan.term_ms, self.plan.term_ms * 6) })
+                    } else if election && rng.below(1000) < *vote_hold {
                         if rng.chance(1, 3) { Some(MsgAct::Drop) } else { Some(MsgAct::Delay { ms: rng.range(self.plan.term_ms / 2, self.plan.term_ms * 4) }) }
                     } else if x < *drop {
                         Some(MsgAct::Drop)
@@ -473,6 +488,7 @@ impl<'a> Sim<'a> {
                     self.term_at_end_of_faults = (0..self.plan.nodes as usize).map(|i| self.nodes[i].verif_term()).max().unwrap_or(0);
                     self.ghost_divergence();
                     self.group = None;
+                    self.cut_links.clear();
                     for s in self.stalled_until_ns.iter_mut() {
                         *s = 0;
                     }
@@ -565,6 +581,37 @@ impl<'a> Sim<'a> {
         }
     }
 
+    /// Recording pass only: cut the given nodes off from the rest for a long while (pinned into the plan).
+    fn adapt_partition_off(&mut self, group: Vec<u64>) {
+        let now_ms = self.now_ns / MS;
+        let nodes = self.plan.nodes;
+        if now_ms + 50 >= self.plan.horizon_ms {
+            return;
+        }
+        let mut new_events: Vec<Ev> = vec![];
+        if let Chooser::Record { rng, .. } = &mut self.chooser {
+            let at = now_ms + rng.range(0, 40);
+            let rest: Vec<u64> = (0..nodes).filter(|x| !group.contains(x)).collect();
+            if group.is_empty() || rest.is_empty() {
+                return;
+            }
+            new_events.push(Ev::Partition { at_ms: at, groups: vec![group, rest] });
+            new_events.push(Ev::Heal { at_ms: at + rng.range(4_000, 20_000) });
+        }
+        for ev in new_events {
+            let at = match &ev {
+                Ev::Partition { at_ms, .. } | Ev::Heal { at_ms } => *at_ms,
+                _ => now_ms,
+            };
+            if let Chooser::Record { out, .. } = &mut self.chooser {
+                out.push(ev.clone());
+            }
+            self.dyn_events.push(ev);
+            let idx = self.dyn_events.len() - 1;
+            self.push(at * MS, Kind::Dyn(idx));
+        }
+    }
+
     fn apply_timed(&mut self, ev: &Ev) {
         if !self.faults_allowed() {
             return;
@@ -591,6 +638,12 @@ impl<'a> Sim<'a> {
             Ev::Heal { .. } => {
                 if self.group.take().is_some() {
                     self.stats.count("fault.heal");
+                }
+            }
+            Ev::CutLink { a, b, for_ms, .. } => {
+                if a < self.plan.nodes && b < self.plan.nodes && a != b {
+                    self.cut_links.push((a, b, self.now_ns + for_ms * MS));
+                    self.stats.count("fault.link_cut");
                 }
             }
             Ev::ClockJump { node, ms, .. } => {
@@ -655,6 +708,7 @@ impl<'a> Sim<'a> {
     /// Invariants after every event (C27, C28, C29).
     fn check(&mut self) {
         let n = self.plan.nodes as usize;
+        let mut minority_commit: Option<Vec<u64>> = None;
         for i in 0..n {
             let is_leader = self.nodes[i].verif_is_leader();
             let term = self.nodes[i].verif_term();
@@ -667,6 +721,11 @@ impl<'a> Sim<'a> {
                     return;
                 }
             }
+            // reach probe (diagnostic, no verdict): a node whose term went down
+            if term < self.last_term[i] {
+                self.stats.count("probe.node_term_decreased");
+            }
+            self.last_term[i] = term;
             // reach probe (diagnostic, no verdict): a node whose log has a gap in its indices
             if !self.hole_seen[i] {
                 let mut idx: Vec<u64> = self.nodes[i].storage.entries.iter().map(|e| e.index).collect();
@@ -711,6 +770,13 @@ impl<'a> Sim<'a> {
                 }
                 if is_leader {
                     self.leader_committed.push((index, eterm, data, term));
+                    // fault placement (recording pass only): a leader has just committed an entry that fewer than a
+                    // majority of the nodes hold - cut the holders off and let the others elect among themselves
+                    let holders: Vec<u64> = (0..n as u64).filter(|j| self.nodes[*j as usize].storage.entries.iter().any(|e| e.index == index && e.term == eterm && e.data == data)).collect();
+                    if holders.len() * 2 <= n {
+                        self.stats.count("probe.leader_committed_entry_held_by_a_minority");
+                        minority_commit = Some(holders);
+                    }
                     if eterm != term && !self.ghosts.iter().any(|g| g.starts_with("G5:")) {
                         // G5: a leader commits, by counting replicas, an entry that is not from its own term
                         self.ghosts.push("G5:leader-commits-entry-of-an-earlier-term-by-counting-replicas".to_string());
@@ -744,6 +810,9 @@ impl<'a> Sim<'a> {
                 }
             }
             self.was_leader[i] = is_leader;
+        }
+        if let Some(holders) = minority_commit {
+            self.adapt_partition_off(holders);
         }
         // recording pass: when two nodes believe they lead at the same time, offer both a client append
         // and let the network heal soon after (split-brain is where committed entries can diverge)
